@@ -50,6 +50,7 @@ const (
 	lEmit
 	lSrcEnd
 	lEnd
+	lTick // one keep-alive period of the server's write loop passes (the harness waits for it)
 )
 
 // Label is one step of a conversation.
@@ -87,6 +88,8 @@ func (l Label) sexp() sexp.Node {
 		return sexp.T("srcend", sexp.Int(l.Op))
 	case lEnd:
 		return sexp.T("end", sexp.Sym(l.End))
+	case lTick:
+		return sexp.T("tick")
 	}
 	panic("label kind")
 }
